@@ -146,7 +146,9 @@ def _opts(padmode, align):
     else:
         pad = int(padmode)
         kw["padding"] = pad
-    if align:
+    if align == "zero":
+        kw["align"] = 0  # an explicit 0: "no alignment", which the planner itself equates with None
+    elif align:
         kw["align"] = align
     return kw, pad
 
@@ -198,7 +200,7 @@ def h_reproject(kx, ky, mx, my, padmode, align, rot=None, pin="none"):
     prove("scale_is_min", ex(rr.scale) == min(kxf, kyf))
     smin = min(kxf, kyf)
     prove("read_shrink_contract", And(k >= 1, k > smin - 1, Or(smin < 1, k <= smin + F(1e-3)), Or(smin >= 1, k == 1)))
-    if rot is not None or pad not in (None, 0) or align:
+    if rot is not None or pad not in (None, 0) or (align and align != "zero"):
         prove("no_paste_when_not_tight", rr.paste_ok is False or rr.paste_ok == False)  # noqa: E712
 
 
@@ -287,7 +289,7 @@ def h_separated(kx, ky, mx, my, padmode, align, axis):
     ov = ovm()
     src, dst, L, t, (Nsy, Nsx, Ndy, Ndx) = mk_pair(kx, ky, mx, my, None, bound=True)
     kw, pad = _opts(padmode, align)
-    margin = (1 if pad is None else pad) + (align or 0) + 1
+    margin = (1 if pad is None else pad) + (0 if align == "zero" else (align or 0)) + 1
     # the destination image, mapped into source pixels, is further than the margin from the source
     if axis == "x":
         e0, _ = src_of(L, t, 0, 0)
@@ -351,7 +353,8 @@ def _r4(tier, rng):
 
 
 def _rot_cfgs(tier):
-    q = [dict(kx="1", ky="1", mx=1, my=1, padmode="none", align=0, rot=["3/5", "4/5"], pin="sizes:")]
+    q = [dict(kx="1", ky="1", mx=1, my=1, padmode="none", align=0, rot=["3/5", "4/5"], pin="sizes:"),
+         dict(kx="1", ky="1", mx=1, my=1, padmode="0", align="zero", rot=["3/5", "4/5"], pin="sizes:")]
     if tier == "quick":
         return q
     return q + [
